@@ -313,6 +313,7 @@ EXPORT wchar_t *_wcstok_s_chk(wchar_t *restrict dest, rsize_t *restrict dmaxp,
      * need to continue the scan.
      */
     if (ptoken == NULL) {
+        *ptr = dest; /* nothing left: later calls see the end of the string */
         *dmaxp = dlen;
         return (ptoken);
     }
@@ -367,6 +368,7 @@ EXPORT wchar_t *_wcstok_s_chk(wchar_t *restrict dest, rsize_t *restrict dmaxp,
         dlen--;
     }
 
+    *ptr = dest; /* the token ran up to the terminator: continue there */
     *dmaxp = dlen;
     return (ptoken);
 }
